@@ -141,10 +141,12 @@ def withTimes (t : Trace) : List (Nat × (Req × Ans) × Nat) :=
 def quiet (t : Trace) : Bool :=
   t.all fun x => isOp x.1 || isSleeper x.1 || x.2.dur == 0
 
-/-- each sleeper call lasts at least the requested delay, unless it raises -/
+/-- each sleeper call lasts at least the requested delay, unless it raises
+    (whatever it returns: the library ignores the sleeper's return value) -/
 def honestSleeper (t : Trace) : Bool :=
   t.all fun x => match x.1, x.2 with
-    | .sleeper _ d, .unit dur => decide (d ≤ dur)
+    | .sleeper _ _, .raise _ _ => true
+    | .sleeper _ d, a => decide (d ≤ a.dur)
     | _, _ => true
 
 /-! ### C02 — deadline envelope -/
@@ -248,8 +250,9 @@ def verdict (t : Trace) (s : St) (r : Res) : Bool :=
         | .ret _ => false
       else true)
 
-def ok : Monitor := fun cfg e t r =>
-  if hasLoop cfg e then verdict t (run cfg t) r else true
+/-- every entry point, with or without a retry component (without one the pre-flight abort check
+    and the single attempt are subject to the same rules) -/
+def ok : Monitor := fun cfg _ t r => verdict t (run cfg t) r
 
 end C13
 
@@ -257,10 +260,35 @@ end C13
 
 namespace C03
 
+/-- The retry loop's own clock as a fold: time elapsed since the first exchange that is not part of
+    the breaker prelude, i.e. the total duration of `retryTrace t` (`elapsedOf_eq` in Props/C03). -/
+structure Clock where
+  started : Bool := false
+  el : Nat := 0
+
+def Clock.tick (c : Clock) (x : Req × Ans) : Clock :=
+  if !c.started && isPrelude x.1 then c else { started := true, el := c.el + x.2.dur }
+
+def elapsedOf (t : Trace) : Nat := (t.foldl Clock.tick {}).el
+
+/-- callbacks whose `AbortRetryError` ends an `execute()` run as ABORTED (the observability hooks'
+    exceptions are swallowed; the attempt hooks and the abort predicate are outside the environment) -/
+def abortKind : Req → Bool
+  | .op _ | .resultClassify _ | .strategy .. | .stratRecordFailure .. | .stratRecordSuccess _
+  | .sleepHandler .. | .sleeper .. => true
+  | _ => false
+
+/-- one of those callbacks raised an `AbortRetryError` -/
+def abortRaise (x : Req × Ans) : Bool :=
+  match x.2 with
+  | .raise e _ => e.isAbort && abortKind x.1
+  | _ => false
+
 structure St where
   ops : Nat := 0
   succeeded : Bool := false        -- the last op returned a value not (yet) classified as failure
   done : Bool := false             -- a success has been confirmed
+  classified : Bool := false       -- since the last op: the failure has been classified
   strat : Bool := false            -- since the last op: strategy called
   granted : Bool := false          -- since the last op: budget granted
   refused : Bool := false          -- since the last op: budget refused
@@ -268,81 +296,142 @@ structure St where
   pollFalse : Bool := false        -- since the strategy call: a poll answered False
   decision : Option SleepDecision := none
   slept : Bool := false            -- since the last op: sleeper called
+  mustOp : Bool := false           -- the backoff sleep ended with every condition for another attempt met
   sawAbort : Bool := false
   sawDefer : Bool := false
+  sawOther : Bool := false         -- a sleep handler returned something that is not a SleepDecision
   lastClass : Option EClass := none
   classCount : EClass → Nat := fun _ => 0
   bad : Bool := false
 
-def step (cfg : Cfg) (s : St) (x : Req × Ans) : St :=
+/-- the failure class of the attempt in progress; a second classification without an operation
+    call in between is `Policy.call` classifying the final exception for the breaker: not counted -/
+def classify (s : St) (k : EClass) : St :=
+  if s.classified then s
+  else { s with classified := true, succeeded := false, lastClass := some k,
+                classCount := fun k' => if k' = k then s.classCount k' + 1 else s.classCount k' }
+
+/-- one exchange; `el` = the loop's elapsed time after it -/
+def step (cfg : Cfg) (s : St) (x : Req × Ans) (el : Nat) : St :=
   let afterLast := decide (s.ops ≥ cfg.maxAttempts)
-  -- an AbortRetryError raised by ANY callback aborts the run
-  let s := match x.2 with
-    | .raise e _ => if e.isAbort then { s with sawAbort := true } else s
-    | _ => s
+  let s := { s with sawAbort := s.sawAbort || abortRaise x }
   match x.1, x.2 with
   | .op _, a =>
     let s := { s with bad := s.bad || s.done || (decide (s.ops ≥ 1) && !s.slept) }
-    let s := { s with ops := s.ops + 1, strat := false, granted := false, refused := false,
-                      retryEv := false, pollFalse := false, decision := none, slept := false }
+    let s := { s with ops := s.ops + 1, classified := false, strat := false, granted := false,
+                      refused := false, retryEv := false, pollFalse := false, decision := none,
+                      slept := false, mustOp := false }
     (match a with
      | .value .. => { s with succeeded := true, done := !cfg.resultClassifier }
-     | .raise e _ => { s with succeeded := false, sawAbort := s.sawAbort || e.isAbort }
-     | _ => s)
+     | _ => { s with succeeded := false })
   | .resultClassify _, .noFailure _ => { s with done := true }
-  | .resultClassify _, .klass c _ =>
-    { s with succeeded := false, lastClass := some c.klass,
-             classCount := fun k => if k = c.klass then s.classCount k + 1 else s.classCount k }
-  | .classify _, .klass c _ =>
-    { s with lastClass := some c.klass,
-             classCount := fun k => if k = c.klass then s.classCount k + 1 else s.classCount k }
-  | .abortIf, .bool b _ => { s with pollFalse := s.pollFalse || (s.strat && !b), sawAbort := s.sawAbort || b }
+  | .resultClassify _, .klass c _ => classify s c.klass
+  | .classify _, .klass c _ => classify s c.klass
+  | .abortIf, .bool b _ =>
+    { s with pollFalse := s.pollFalse || (s.strat && !b), sawAbort := s.sawAbort || b,
+             mustOp := s.mustOp && !b }
+  | .abortIf, _ => { s with mustOp := false }   -- only a poll answered False keeps the obligation
   | .strategy .., _ => { s with strat := true, bad := s.bad || s.done || afterLast }
   | .budgetConsume, .granted g =>
-    { s with granted := s.granted || g, refused := s.refused || !g, bad := s.bad || s.done || afterLast }
-  | .metric .retry .., _ => { s with retryEv := true, bad := s.bad || s.done || afterLast }
+    { s with granted := s.granted || g, refused := s.refused || !g,
+             bad := s.bad || s.done || afterLast || s.granted || s.refused || !s.strat }
+  | .metric .retry .., _ =>
+    { s with retryEv := true,
+             bad := s.bad || s.done || afterLast || !s.strat || (cfg.budget.isSome && !s.granted) }
+  | .metric .budgetExhausted .., _ => { s with bad := s.bad || !s.refused }
   | .sleepHandler .., .decision d _ =>
-    { s with decision := some d, sawAbort := s.sawAbort || d == .abort, sawDefer := s.sawDefer || d == .defer }
-  | .sleeper .., _ =>
+    { s with decision := some d, sawAbort := s.sawAbort || d == .abort,
+             sawDefer := s.sawDefer || d == .defer, sawOther := s.sawOther || d == .other }
+  | .sleeper .., a =>
     let permitted := s.strat && (cfg.budget.isNone || s.granted) && (!cfg.metric || s.retryEv)
       && (!cfg.abortIf || s.pollFalse)
       && (cfg.handler.isNone || s.decision == some .sleep)
-    { s with slept := true, bad := s.bad || s.done || afterLast || !permitted || s.slept }
+    let returned := match a with
+      | .raise .. => false
+      | _ => true
+    { s with slept := true, bad := s.bad || s.done || afterLast || !permitted || s.slept,
+             mustOp := returned && decide (el ≤ cfg.deadline) && decide (s.ops < cfg.maxAttempts) }
   | _, _ => s
 
-def run (cfg : Cfg) (t : Trace) : St := t.foldl (step cfg) {}
+def run (cfg : Cfg) (t : Trace) : St :=
+  (t.foldl (fun (acc : St × Clock) x =>
+      let c := acc.2.tick x
+      (step cfg acc.1 x c.el, c)) ({}, {})).1
 
-def stopOf : Res → Option StopReason
+/-- The stop reason a result reports.  A `RetryExhaustedError` object that some callback itself
+    raised is not a report of this run (it belongs to a nested run; the library passes it through). -/
+def stopOf (t : Trace) : Res → Option StopReason
   | .outcome o _ => o.stop
-  | .raised (.libExhausted f) => some f.stop
+  | .raised (.libExhausted f) =>
+    if raisedBy (fun _ => true) t (.libExhausted f) then none else some f.stop
   | _ => none
 
+def overClass (cfg : Cfg) (s : St) (k : EClass) : Bool :=
+  match cfg.perClass k with
+  | some l => decide (s.classCount k > l)
+  | none => false
+
+def overUnknown (cfg : Cfg) (s : St) : Bool :=
+  match cfg.maxUnknown with
+  | some m => decide (s.classCount .unknown > m)
+  | none => false
+
 /-- each reported stop reason implies its condition -/
+def stopCond (cfg : Cfg) (s : St) (el : Nat) : StopReason → Bool
+  | .maxAttemptsGlobal => decide (s.ops ≥ cfg.maxAttempts)
+  | .budgetExhausted => s.refused
+  | .aborted => s.sawAbort
+  | .scheduled => s.sawDefer
+  | .deadlineExceeded => decide (el ≥ cfg.deadline)
+  | .nonRetryableClass => (s.lastClass.map EClass.nonRetryable).getD false
+  | .maxUnknownAttempts => s.lastClass == some .unknown && overUnknown cfg s
+  | .maxAttemptsPerClass => (s.lastClass.map (overClass cfg s)).getD false
+  | .noStrategy => (s.lastClass.map fun k => (cfg.selectStrategy k).isNone).getD false
+
 def stopSound (cfg : Cfg) (t : Trace) (s : St) (r : Res) : Bool :=
-  match stopOf r with
+  match stopOf t r with
   | none => true
-  | some .maxAttemptsGlobal => decide (s.ops ≥ cfg.maxAttempts)
-  | some .budgetExhausted => s.refused
-  | some .aborted => s.sawAbort
-  | some .scheduled => s.sawDefer
-  | some .deadlineExceeded => decide (((retryTrace t).foldl (fun n x => n + x.2.dur) 0) ≥ cfg.deadline)
-  | some .nonRetryableClass => (s.lastClass.map EClass.nonRetryable).getD false
-  | some .maxUnknownAttempts =>
-    s.lastClass == some .unknown
-    && (match cfg.maxUnknown with | some m => decide (s.classCount .unknown > m) | none => false)
-  | some .maxAttemptsPerClass =>
-    (match s.lastClass with
-     | some k => (match cfg.perClass k with | some l => decide (s.classCount k > l) | none => false)
-     | none => false)
-  | some .noStrategy =>
-    (match s.lastClass with
-     | some k => (cfg.selectStrategy k).isNone
-     | none => false)
+  | some reason => stopCond cfg s (elapsedOf t) reason
+
+/-- some condition that ends a run in failure holds -/
+def anyStop (cfg : Cfg) (s : St) (el : Nat) : Bool :=
+  [StopReason.maxAttemptsGlobal, .budgetExhausted, .deadlineExceeded, .nonRetryableClass,
+   .maxUnknownAttempts, .maxAttemptsPerClass, .noStrategy].any (stopCond cfg s el)
+
+def nonOp (r : Req) : Bool := !isOp r
+
+/-- No premature give-up, read off the END of the log: a run that made an attempt and did not end
+    in a confirmed success must report a stop reason (judged by `stopSound`), or end with an
+    exception that is not an attempt failure (abort, cancellation, nested exhaustion), or with one
+    that a callback other than the operation raised, or with the ValueError for a malformed
+    handler decision; `call()` re-raising the operation's own exception is justified only if
+    the failure was classified and a stop condition holds. -/
+def giveUpOk (cfg : Cfg) (t : Trace) (s : St) (r : Res) : Bool :=
+  if s.ops == 0 || s.done then true
+  else match r with
+    | .ret _ => false
+    | .outcome o _ => !o.ok && o.stop.isSome
+    | .raised e =>
+      if !e.isException || e.isAbort || e.isExhausted then true
+      else raisedBy nonOp t e || (e == .libValueError && s.sawOther)
+           || (raisedBy isOp t e && s.classified && anyStop cfg s (elapsedOf t))
+
+/-- No wasted token, read off the END of the log: if the budget granted a token in the last attempt,
+    the grant was reported (`retry` event, when a metric hook is configured) and the backoff was at
+    least begun (a sleeper request, or a sleep handler's answer) — unless the run was aborted or
+    ended with an exception; it does not end with any other stop reason. -/
+def grantOk (cfg : Cfg) (t : Trace) (s : St) (r : Res) : Bool :=
+  !s.granted ||
+    ((!cfg.metric || s.retryEv) &&
+     (s.slept || s.decision.isSome || (match stopOf t r with
+        | none => true
+        | some .aborted => true
+        | some _ => false)))
 
 def ok : Monitor := fun cfg e t r =>
   if hasLoop cfg e && !Mon.attemptHookFault t then
     let s := run cfg t
-    !s.bad && stopSound cfg t s r
+    !s.bad && stopSound cfg t s r && !s.mustOp && giveUpOk cfg t s r && grantOk cfg t s r
   else true
 
 end C03
@@ -574,88 +663,221 @@ end C16
 
 namespace C14
 
+/-- an event as a sink receives it: (event, attempt, sleep, tags) -/
+abbrev EvRec := Event × Nat × Nat × Tags
+
 def isBreakerEvent : Event → Bool
   | .circuitOpened | .circuitHalfOpen | .circuitClosed | .circuitRejected => true
   | _ => false
 
-/-- the metric-sink view of the retry-level event stream: (event, attempt, sleep, tags) -/
-def metricStream (t : Trace) : List (Event × Nat × Nat × Tags) :=
-  t.filterMap fun x => match x.1 with
-    | .metric ev a s tags => if isBreakerEvent ev then none else some (ev, a, s, tags)
-    | _ => none
+/-- what a breaker interaction announced and a hook must be told: (event, state, class) -/
+abbrev BrkExp := Event × CState × Option EClass
 
-def logStream (t : Trace) : List (Event × Nat × Nat × Tags) :=
-  t.filterMap fun x => match x.1 with
-    | .log ev a s tags _ => if isBreakerEvent ev then none else some (ev, a, s, tags)
-    | _ => none
+/-- Fold state.  `ms`/`ls` are the retry-level REQUESTS to the metric / log hook (newest first;
+    whatever the hook answered).  `opExn`, `klass`, `cause` describe the failure of the attempt
+    in progress as the library was told it: what the operation raised (`none`: it returned) and
+    what the (result) classifier answered. -/
+structure St where
+  ms : List EvRec := []
+  ls : List EvRec := []
+  opExn : Option Exn := none
+  klass : Option EClass := none
+  cause : Option Cause := none
+  tagsBad : Bool := false
+  bm : Option BrkExp := none        -- breaker event the metric hook has not been told yet
+  bl : Option BrkExp := none        -- … the log hook
+  brkBad : Bool := false
 
-/-- `retry(1,·) … retry(n,·)` then exactly one terminal event -/
-def shapeOk : List (Event × Nat × Nat × Tags) → Nat → Bool
+/-- the `err` tag that describes the failure in progress -/
+def expErr (s : St) : Option String :=
+  if s.cause = some .exception then s.opExn.map Exn.typeName else none
+
+/-- the tags of a retry-level event describe the failure in progress:
+    `success` carries nothing, `aborted` only its reason, `retry` class/err/cause and no stop
+    reason, every other (terminal) event class/err/cause and a stop reason; `operation` always. -/
+def describes (cfg : Cfg) (s : St) (x : EvRec) : Bool :=
+  x.2.2.2.operation == cfg.opTag && x.2.2.2.state == none &&
+  (match x.1 with
+   | .success => x.2.2.2.klass == none && x.2.2.2.err == none && x.2.2.2.stop == none
+                 && x.2.2.2.cause == none
+   | .aborted => x.2.2.2.klass == none && x.2.2.2.err == none && x.2.2.2.cause == none
+                 && x.2.2.2.stop == some .aborted
+   | .retry => x.2.2.2.stop == none && x.2.2.2.klass == s.klass && x.2.2.2.cause == s.cause
+               && x.2.2.2.err == expErr s
+   | _ => x.2.2.2.stop.isSome && x.2.2.2.klass == s.klass && x.2.2.2.cause == s.cause
+          && x.2.2.2.err == expErr s)
+
+/-- a breaker event as a hook must receive it: attempt 0, sleep 0, the announced event with the
+    breaker's state (and the failure class for `record_failure`), `operation`, nothing else -/
+def brkTagsOk (cfg : Cfg) (exp : Option BrkExp) (ev : Event) (a sl : Nat) (tags : Tags) : Bool :=
+  a == 0 && sl == 0 && tags.operation == cfg.opTag && tags.err == none && tags.stop == none
+  && tags.cause == none
+  && (match tags.state with
+      | some st => exp == some (ev, st, tags.klass)
+      | none => false)
+
+/-- the breaker announced a transition / rejection: both configured hooks must now be told -/
+def expect (cfg : Cfg) (s : St) (x : BrkExp) : St :=
+  { s with brkBad := s.brkBad || s.bm.isSome || s.bl.isSome,
+           bm := if cfg.metric then some x else none,
+           bl := if cfg.log then some x else none }
+
+def onMetric (cfg : Cfg) (s : St) (ev : Event) (a sl : Nat) (tags : Tags) : St :=
+  if isBreakerEvent ev then { s with brkBad := s.brkBad || !brkTagsOk cfg s.bm ev a sl tags, bm := none }
+  else { s with ms := (ev, a, sl, tags) :: s.ms,
+                tagsBad := s.tagsBad || !describes cfg s (ev, a, sl, tags) }
+
+def onLog (cfg : Cfg) (s : St) (ev : Event) (a sl : Nat) (tags : Tags) : St :=
+  if isBreakerEvent ev then { s with brkBad := s.brkBad || !brkTagsOk cfg s.bl ev a sl tags, bl := none }
+  else { s with ls := (ev, a, sl, tags) :: s.ls,
+                tagsBad := s.tagsBad || !describes cfg s (ev, a, sl, tags) }
+
+def step (cfg : Cfg) (s : St) (x : Req × Ans) : St :=
+  match x.1 with
+  | .op _ => (match x.2 with
+    | .raise e _ => { s with opExn := some e }
+    | _ => { s with opExn := none })
+  | .classify _ => (match x.2 with
+    | .klass c _ => { s with klass := some c.klass, cause := some .exception }
+    | _ => s)
+  | .resultClassify _ => (match x.2 with
+    | .klass c _ => { s with klass := some c.klass, cause := some .result }
+    | _ => s)
+  | .metric ev a sl tags => onMetric cfg s ev a sl tags
+  | .log ev a sl tags _ => onLog cfg s ev a sl tags
+  | .breakerAllow => (match x.2 with
+    | .admit _ st (some ev) => expect cfg s (ev, st, none)
+    | _ => s)
+  | .breakerSuccess => (match x.2 with
+    | .recorded (some ev) st => expect cfg s (ev, st, none)
+    | _ => s)
+  | .breakerFailure k => (match x.2 with
+    | .recorded (some ev) st => expect cfg s (ev, st, some k)
+    | _ => s)
+  | _ => s
+
+def run (cfg : Cfg) (t : Trace) : St := t.foldl (step cfg) {}
+
+/-- `retry(1,·) … retry(n,·)` then exactly one terminal event (oldest first) -/
+def shapeOk : List EvRec → Nat → Bool
   | [], _ => false
-  | [(ev, _, _, _)], _ => ev != .retry
-  | (ev, a, _, _) :: rest, i => ev == .retry && a == i && shapeOk rest (i + 1)
+  | [x], _ => x.1 != .retry
+  | x :: rest, i => x.1 == .retry && x.2.1 == i && shapeOk rest (i + 1)
 
-/-- does the run end "normally" (value, failure, deferral or abort) — as opposed to a
-    cancellation, a nested RetryExhaustedError or an error of the caller's own callbacks? -/
-def endsNormally (t : Trace) (r : Res) : Bool :=
+def isAnyReq : Req → Bool := fun _ => true
+def isNonOp : Req → Bool := fun r => !Mon.isOp r
+
+/-- Does the run end "normally" (value, failure, deferral, abort — or the breaker's rejection)?
+    `call()` delivers a failure by raising: AbortRetryError / RetryExhaustedError made by the
+    library (not merely passed through from a callback), or the operation's own last exception
+    (an exception object the operation raised and no other callback did).  `execute()` delivers
+    every normal end as an outcome.  Everything else — cancellation kinds, a nested
+    RetryExhaustedError, errors raised by strategies / sleepers / classifiers / hooks — is not
+    a normal end. -/
+def endsNormally (e : Entry) (t : Trace) (r : Res) : Bool :=
   match r with
   | .ret _ => true
   | .outcome .. => true
-  | .raised .libAbort => true
-  | .raised (.libExhausted _) => true
-  | .raised e =>
-    e.isException && !e.isExhausted && Mon.raisedBy Mon.isOp t e
-    && !Mon.raisedBy (fun r => !Mon.isOp r) t e
+  | .raised x =>
+    !e.isExecute && !Mon.raisedBy isNonOp t x &&
+    (match x with
+     | .libAbort => true
+     | .libExhausted _ => !Mon.raisedBy Mon.isOp t x
+     | .libCircuitOpen _ => Mon.rejected t
+     | .ordinary .. | .abort _ | .circuitOpen _ => Mon.raisedBy Mon.isOp t x
+     | _ => false)
 
-def stopOf : Res → Option StopReason
-  | .outcome o _ => o.stop
-  | .raised (.libExhausted f) => some f.stop
-  | .raised .libAbort => some .aborted
-  | .raised (.abort _) => some .aborted
+/-- the tags a timeline entry keeps -/
+def projTags (t : Tags) : Tags := { klass := t.klass, stop := t.stop, cause := t.cause }
+
+def proj (x : EvRec) : EvRec := (x.1, x.2.1, x.2.2.1, projTags x.2.2.2)
+
+def tlRec (x : TimelineEv) : EvRec :=
+  (x.event, x.attempt, x.sleep, { klass := x.klass, stop := x.stop, cause := x.cause })
+
+/-- The terminal event agrees with what the caller got.  `full = false` for a timeline entry
+    (which keeps neither `err` nor `operation`). -/
+def terminalOk (full : Bool) (last : EvRec) (r : Res) : Bool :=
+  let ev := last.1
+  let tags := last.2.2.2
+  match r with
+  | .ret _ => ev == .success
+  | .outcome o _ =>
+    if o.ok then ev == .success
+    else ev != .success && tags.stop == o.stop
+      && (o.stop == some .aborted
+          || (tags.klass == o.lastClass && tags.cause == o.cause
+              && (!full || tags.err.isSome == o.lastExc.isSome)))
+  | .raised (.libExhausted f) =>
+    tags.stop == some f.stop && tags.klass == f.lastClass
+    && (!full || tags.err.isSome == f.lastExc.isSome)
+  | .raised .libAbort => tags.stop == some .aborted
+  | .raised (.abort _) => tags.stop == some .aborted
+  | .raised x =>
+    -- the operation's exception re-raised: the stop reason is only visible in the event; the
+    -- event names that exception (`describes` then forces cause = exception and its class)
+    ev != .success && tags.stop.isSome && (!full || tags.err == some x.typeName)
+
+def lastOk (full : Bool) (newestFirst : List EvRec) (r : Res) : Bool :=
+  match newestFirst with
+  | x :: _ => terminalOk full x r
+  | [] => false
+
+/-- the captured timeline (oldest first), when this entry point captures one -/
+def timelineOf (cfg : Cfg) (e : Entry) (r : Res) : Option (List EvRec) :=
+  match r with
+  | .outcome _ tl => if e.isExecute && cfg.timeline then some (tl.map tlRec) else none
   | _ => none
 
-def terminalOk (cfg : Cfg) (last : Event × Nat × Nat × Tags) (r : Res) : Bool :=
-  let (ev, _, _, tags) := last
-  tags.operation == cfg.opTag
-  && (match r with
-      | .ret _ => ev == .success
-      | .outcome o _ => if o.ok then ev == .success else tags.stop == o.stop && (o.stop == some .aborted || (tags.klass == o.lastClass && tags.cause == o.cause))
-      | _ => match stopOf r with
-        | some s => tags.stop == some s
-        | none => tags.stop.isSome)       -- an exception-caused stop: the reason is only in the event
-  && (ev != .aborted || (tags.klass.isNone && tags.err.isNone && tags.cause.isNone))
+/-- conjunct 1: each sink receives `retry(1) … retry(n)` then exactly one terminal event -/
+def streamShape (cfg : Cfg) (e : Entry) (s : St) (r : Res) : Bool :=
+  (!cfg.metric || shapeOk s.ms.reverse 1)
+  && (!cfg.log || shapeOk s.ls.reverse 1)
+  && (match timelineOf cfg e r with
+      | some tl => shapeOk tl 1
+      | none => true)
 
-def timelineMatches (ms : List (Event × Nat × Nat × Tags)) (tl : List TimelineEv) : Bool :=
-  ms.length == tl.length
-  && (ms.zip tl).all fun (m, e) =>
-      m.1 == e.event && m.2.1 == e.attempt && m.2.2.1 == e.sleep
-      && m.2.2.2.klass == e.klass && m.2.2.2.stop == e.stop && m.2.2.2.cause == e.cause
+/-- conjunct 2: every event's tags describe the failure in progress, and the terminal event
+    agrees with the delivered result -/
+def terminalTags (cfg : Cfg) (e : Entry) (s : St) (r : Res) : Bool :=
+  !s.tagsBad
+  && (!cfg.metric || lastOk true s.ms r)
+  && (!cfg.log || lastOk true s.ls r)
+  && (match timelineOf cfg e r with
+      | some tl => lastOk false tl.reverse r
+      | none => true)
+
+/-- conjunct 3: the log hook gets what the metric hook gets; the timeline is its projection -/
+def sinksAgree (cfg : Cfg) (e : Entry) (s : St) (r : Res) : Bool :=
+  (!(cfg.metric && cfg.log) || s.ms == s.ls)
+  && (match timelineOf cfg e r with
+      | some tl =>
+        if cfg.metric then tl == s.ms.reverse.map proj
+        else if cfg.log then tl == s.ls.reverse.map proj
+        else true
+      | none => true)
+
+/-- conjunct 4: every transition / rejection the breaker announced was reported to each configured
+    hook, as attempt 0 with the breaker's state; no other breaker event was reported -/
+def breakerEventsShape (s : St) : Bool := !s.brkBad && s.bm.isNone && s.bl.isNone
+
+/-- a rejected call produces no retry-level event at all -/
+def noRetryEvents (cfg : Cfg) (e : Entry) (s : St) (r : Res) : Bool :=
+  s.ms.isEmpty && s.ls.isEmpty
+  && (match timelineOf cfg e r with
+      | some tl => tl.isEmpty
+      | none => true)
+
+def verdict (cfg : Cfg) (e : Entry) (t : Trace) (s : St) (r : Res) : Bool :=
+  if Mon.rejected t then noRetryEvents cfg e s r && breakerEventsShape s
+  else streamShape cfg e s r && terminalTags cfg e s r && sinksAgree cfg e s r
+       && breakerEventsShape s
+
+def guard (cfg : Cfg) (e : Entry) (t : Trace) (r : Res) : Bool :=
+  hasLoop cfg e && endsNormally e t r && !Mon.attemptHookFault t
 
 def ok : Monitor := fun cfg e t r =>
-  if hasLoop cfg e && endsNormally t r && !Mon.rejected t && !Mon.attemptHookFault t then
-    let ms := metricStream t
-    let ls := logStream t
-    (!cfg.metric || (shapeOk ms 1 && (match ms.getLast? with
-        | some l => terminalOk cfg l r
-        | none => false)))
-    && (!cfg.log || (shapeOk ls 1 && (match ls.getLast? with
-        | some l => terminalOk cfg l r
-        | none => false)))
-    && (!(cfg.metric && cfg.log) || ms == ls)
-    && (match r with
-        | .outcome _ tl =>
-          if e.isExecute && cfg.timeline then
-            (if cfg.metric then timelineMatches ms tl
-             else if cfg.log then timelineMatches ls tl
-             else shapeOk (tl.map fun x => (x.event, x.attempt, x.sleep, ({} : Tags))) 1)
-          else true
-        | _ => true)
-    -- breaker events carry attempt 0 and the breaker's state
-    && t.all fun x => match x.1 with
-        | .metric ev a s tags => !isBreakerEvent ev || (a == 0 && s == 0 && tags.state.isSome)
-        | .log ev a s tags _ => !isBreakerEvent ev || (a == 0 && s == 0 && tags.state.isSome)
-        | _ => true
-  else true
+  if guard cfg e t r then verdict cfg e t (run cfg t) r else true
 
 end C14
 
@@ -911,9 +1133,7 @@ def expected (cfg : Cfg) (s : St) (r : Res) : Option Req :=
     else if cfg.hasRetry && s.clsRaised == some e then none
     else if e.isExhausted then some (.breakerFailure (e.exhaustedClass.getD .unknown))
     else if cfg.hasRetry then
-      (match s.lastClass with
-       | some (ref, k) => if ref == e.ref then some (.breakerFailure k) else none
-       | none => none)
+      s.lastClass.bind fun p => if p.1 == e.ref then some (.breakerFailure p.2) else none
     else some (.breakerFailure (Policy.defaultClass e))
 
 end C09
@@ -983,22 +1203,43 @@ namespace C10
 structure St where
   consumed : Nat := 0          -- granted consumes since the last op
   refused : Nat := 0
+  strat : Bool := false        -- since the last op: strategy called
+  retryEv : Bool := false      -- since the last op: `retry` event seen (metric)
+  used : Bool := false         -- since the last op: a sleeper request or a sleep handler's decision
   bad : Bool := false
 
 def step (cfg : Cfg) (s : St) (x : Req × Ans) : St :=
   match x.1, x.2 with
-  | .op _, _ => { s with consumed := 0, refused := 0 }
-  | .budgetConsume, .granted true => { s with consumed := s.consumed + 1, bad := s.bad || decide (s.consumed + s.refused ≥ 1) }
-  | .budgetConsume, .granted false => { s with refused := s.refused + 1, bad := s.bad || decide (s.consumed + s.refused ≥ 1) }
-  | .metric .retry .., _ => { s with bad := s.bad || (cfg.budget.isSome && s.consumed != 1) }
+  | .op _, _ => { s with consumed := 0, refused := 0, strat := false, retryEv := false, used := false }
+  | .strategy .., _ => { s with strat := true }
+  -- the budget is consulted once per attempt, and only after the strategy has computed a delay
+  | .budgetConsume, .granted true =>
+    { s with consumed := s.consumed + 1, bad := s.bad || decide (s.consumed + s.refused ≥ 1) || !s.strat }
+  | .budgetConsume, .granted false =>
+    { s with refused := s.refused + 1, bad := s.bad || decide (s.consumed + s.refused ≥ 1) || !s.strat }
+  | .metric .retry .., _ => { s with retryEv := true, bad := s.bad || (cfg.budget.isSome && s.consumed != 1) }
   | .metric .budgetExhausted .., _ => { s with bad := s.bad || s.refused != 1 }
-  | .sleeper .., _ => { s with bad := s.bad || (cfg.budget.isSome && s.consumed != 1) }
+  | .sleeper .., _ => { s with used := true, bad := s.bad || (cfg.budget.isSome && s.consumed != 1) }
+  | .sleepHandler .., .decision _ _ => { s with used := true }
   | _, _ => s
 
 def run (cfg : Cfg) (t : Trace) : St := t.foldl (step cfg) {}
 
-def ok : Monitor := fun cfg e t _ =>
-  if hasLoop cfg e && !Mon.attemptHookFault t then !(run cfg t).bad else true
+/-- a token granted in the last attempt was not wasted: the grant was reported and the backoff at
+    least begun, unless the run was aborted or ended with an exception -/
+def tokenUsed (cfg : Cfg) (t : Trace) (s : St) (r : Res) : Bool :=
+  s.consumed == 0 ||
+    ((!cfg.metric || s.retryEv) &&
+     (s.used || (match C03.stopOf t r with
+        | none => true
+        | some .aborted => true
+        | some _ => false)))
+
+def ok : Monitor := fun cfg e t r =>
+  if hasLoop cfg e && !Mon.attemptHookFault t then
+    let s := run cfg t
+    !s.bad && tokenUsed cfg t s r
+  else true
 
 end C10
 
